@@ -43,7 +43,7 @@ func genC06(t *rapid.T) *C06Case {
 		for j := 0; j < k; j++ {
 			tl += ",t:" + rapid.SampledFrom(trs).Draw(t, "t")
 		}
-		kind := rapid.IntRange(0, 6).Draw(t, "kind")
+		kind := rapid.IntRange(0, 7).Draw(t, "kind")
 		if kind == 3 && multiphaseBuild && known("C06-multiphase-chainminphase-race") {
 			// known finding (multiphase build only): chained rules lazily write chainMinPhase into the
 			// shared rule during evaluation. Excluded by construction while the witness still fails.
@@ -65,6 +65,8 @@ func genC06(t *rapid.T) *C06Case {
 			lines = append(lines, fmt.Sprintf("SecRule ARGS:/^a/ \"@contains v\" \"id:%d,phase:2,pass,%s,setvar:tx.score=+%d\"", id, tl, i+1))
 		case 5:
 			lines = append(lines, fmt.Sprintf("SecRule TX:score \"@ge %d\" \"id:%d,phase:2,deny,status:403,log\"", rapid.IntRange(1, 8).Draw(t, "thr"), id))
+		case 7: // per-transaction audit-parts change: must not touch the parts other transactions log with
+			lines = append(lines, fmt.Sprintf("SecRule ARGS_GET:a \"@contains %s\" \"id:%d,phase:1,pass,nolog,ctl:auditLogParts=%s\"", rapid.SampledFrom([]string{"v", "1", "sel"}).Draw(t, "apv"), id, rapid.SampledFrom([]string{"-H", "-BK", "+E", "-B"}).Draw(t, "apc")))
 		case 6:
 			lines = append(lines, fmt.Sprintf("SecRule REQUEST_URI \"@restpath /p/{id}\" \"id:%d,phase:1,pass,%s,setvar:tx.rp=%%{ARGS_PATH.id}\"", id, tl))
 		}
@@ -224,6 +226,8 @@ func checkC06(c *C06Case) Result {
 			res.Labels = append(res.Labels, "runtime-target-exclusion")
 		case strings.Contains(l, "@pm"):
 			res.Labels = append(res.Labels, "shared-pm")
+		case strings.Contains(l, "ctl:auditLogParts"):
+			res.Labels = append(res.Labels, "ctl-auditLogParts")
 		case strings.Contains(l, "chain"):
 			res.Labels = append(res.Labels, "chain")
 		}
